@@ -157,15 +157,19 @@ fn main() {
     };
     run_property(prop, |ctx| {
         let mut scns: Vec<Scn> = vec![];
-        for &dur in &[5i64, 30, 3600] {
-            for &off in &[-10.0f64, -3.0, 3.0, 10.0, 3600.0] {
+        let th = ctx.tier == Tier::Thorough;
+        let durs: Vec<i64> = if th { vec![3, 5, 11, 30, 31, 600, 3600, 3 * 86400] } else { vec![5, 30, 3600] };
+        let offs: Vec<f64> = if th { vec![-86400.0, -3600.0, -60.0, -10.0, -3.0, -2.5, 2.5, 3.0, 10.0, 60.0, 3600.0, 86400.0] } else { vec![-10.0, -3.0, 3.0, 10.0, 3600.0] };
+        let pubs: Vec<f64> = if th { vec![100.01, 100.37, 100.99] } else { vec![100.37] };
+        for &pub_t in &pubs {
+        for &dur in &durs {
+            for &off in &offs {
                 for &sct in &[true, false] {
                     for &check in &[true, false] {
                         for &object_first in &[false, true] {
                             for &transit in &[0.0f64, 0.2] {
                                 for variant in 0..4 {
-                                    // publish at sender second 100.37; Expires = floor + dur
-                                    let pub_t = 100.37;
+                                    // publish at sender second pub_t (100.37 in the quick tier); Expires = floor + dur
                                     let expires = 100 + dur;
                                     let ts_obj_rel = expires as f64 + off;
                                     if !object_first && ts_obj_rel <= pub_t + 1.0 {
@@ -202,6 +206,7 @@ fn main() {
                     }
                 }
             }
+        }
         }
         let n = scns.len();
         let scns = std::sync::Arc::new(scns);
